@@ -60,9 +60,9 @@ static void hnd_async(coap_resource_t *r, coap_session_t *s, const coap_pdu_t *r
   a = coap_find_async(s, coap_pdu_get_token(req));
   if (!a) {
     a = coap_register_async(s, req, COAP_TICKS_PER_SECOND / 50);
-    if (a) return;                                    /* answered later */
-  } else
-    coap_free_async(s, a);
+    if (a) return;                                    /* answered later: the library calls this handler again */
+  }
+  /* second invocation (from coap_check_async): answer now; the library releases the async entry itself */
   coap_pdu_set_code(resp, COAP_RESPONSE_CODE_CONTENT);
 }
 
@@ -153,7 +153,8 @@ static void *app_thread(void *arg) {
       char name[16];
       cur_op[w->idx] = "resource add+delete";
       snprintf(name, sizeof(name), "t%d", w->idx);
-      coap_resource_t *r = coap_resource_init(coap_make_str_const(name), COAP_RESOURCE_FLAGS_RELEASE_URI * 0);
+      /* coap_make_str_const() hands out unsynchronised static storage (documented): not used from the threads */
+      coap_resource_t *r = coap_resource_init(coap_new_str_const((const uint8_t *)name, strlen(name)), COAP_RESOURCE_FLAGS_RELEASE_URI);
       if (r) {
         coap_register_request_handler(r, COAP_REQUEST_GET, hnd_get);
         coap_add_resource(ctx, r);
@@ -219,7 +220,7 @@ int main(int argc, char **argv) {
   if (n > MAXT) n = MAXT;
   setvbuf(stdout, NULL, _IOLBF, 0);
   coap_startup();
-  coap_set_log_level(COAP_LOG_EMERG);
+  coap_set_log_level(getenv("SMOKE_LOG") ? atoi(getenv("SMOKE_LOG")) : COAP_LOG_EMERG);
   if (!coap_threadsafe_is_supported()) { printf("ok\n"); return 0; }   /* nothing is advertised */
   ctx = coap_new_context(NULL);
   if (!ctx) { printf("setup-failed context\n"); return 0; }
@@ -258,6 +259,12 @@ int main(int argc, char **argv) {
   tcp_s = tcp_addr.size ? coap_new_client_session(ctx, NULL, &tcp_addr, COAP_PROTO_TCP) : NULL;
   dead_s = coap_new_client_session(ctx, NULL, &dead_addr, COAP_PROTO_UDP);
   if (!udp_s) { printf("setup-failed session\n"); return 0; }
+
+  /* warm-up on this thread alone: the first request of a client session waits inside coap_send() for the peer's
+   * first answer (CSM exchange for TCP) by running the I/O loop itself */
+  if (tcp_s) send_req(tcp_s, COAP_MESSAGE_CON, COAP_REQUEST_CODE_GET, "r", 0, 1);
+  send_req(udp_s, COAP_MESSAGE_CON, COAP_REQUEST_CODE_GET, "r", 0, 2);
+  for (i = 0; i < 10; i++) coap_io_process(ctx, 10);
 
   pthread_create(&io, NULL, io_thread, NULL);
   for (i = 0; i < n; i++) { wa[i].idx = i; wa[i].seed = seed; pthread_create(&th[i], NULL, app_thread, &wa[i]); }
